@@ -1639,6 +1639,57 @@ def run_part(ctx, res, name, seed=None, **kw):
 
 
 # =========================================================================== entry points
+def part_config_elements(ctx, res, n):
+    """E: everything a precipitation model derives from the solute LIST before it runs (no thermodynamics involved): initial
+    composition vector, default nucleation-site densities (bulk N0 from the composition, dislocation / boundary / edge / corner
+    densities), molar-volume derived quantities.  Re-listing the solutes must permute the composition and change nothing else."""
+    vlib.use_repo()
+    from kawin.precipitation import PrecipitateModel, VolumeParameter
+    names = ['AL', 'CR', 'CO', 'CU', 'MG', 'SI', 'TI', 'ZR']
+    for _ in range(int(n)):
+        k = ctx.rng.choice([2, 2, 3, 4])
+        els = ctx.rng.sample(names, k)
+        x = [ctx.rng.uniform(0.002, 0.15) for _ in els]
+        perm = list(range(k)); ctx.rng.shuffle(perm)
+        if perm == list(range(k)):
+            perm = perm[1:] + perm[:1]
+        site = ctx.rng.choice(['bulk', 'dislocations', 'grain boundaries', 'grain edges', 'grain corners'])
+        setN0 = ctx.rng.random() < 0.25
+        order = ctx.rng.choice(['composition-first', 'volume-first'])
+        case = dict(part='config-elements', elements=els, x=x, perm=perm, site=site, user_bulkN0=setN0, order=order)
+
+        def build(idx):
+            m = PrecipitateModel(phases=['P'], elements=[els[i] for i in idx])
+            def comp(): m.setInitialComposition([x[i] for i in idx])
+            def vol(): m.setVolumeAlpha(1e-5, VolumeParameter.MOLAR_VOLUME, 4)
+            for f in ((comp, vol) if order == 'composition-first' else (vol, comp)):
+                f()
+            m.setVolumeBeta(1e-5, VolumeParameter.MOLAR_VOLUME, 4)
+            m.setNucleationDensity(grainSize=50, dislocationDensity=1e14, **({'bulkN0': 1e28} if setN0 else {}))
+            m.setNucleationSite(site)
+            m.setInterfacialEnergy(0.1)
+            return m
+        ok, ms = vlib.guarded(res, 'config-elements', case, lambda: (build(list(range(k))), build(perm)))
+        if not ok:
+            continue
+        a, b = ms
+        res.case(('config-elements', tuple(els), tuple(perm), site, setN0, order), not setN0)
+        res.count('E:config-elements:' + site + (':user-N0' if setN0 else ':default-N0'))
+        xa = np.atleast_1d(a.matrixParameters.initComposition); xb = np.atleast_1d(b.matrixParameters.initComposition)
+        if not vlib.all_close([xa[i] for i in perm], xb, 1e-15):
+            res.violate('elem-order:config:initial-composition', 're-listing the solutes does not permute the initial composition', case, xb.tolist(), [float(xa[i]) for i in perm])
+        na, nb = a.matrixParameters.nucleationSites, b.matrixParameters.nucleationSites
+        for attr in ('bulkN0', 'dislocationN0', 'GBareaN0', 'GBedgeN0', 'GBcornerN0'):
+            va, vb = getattr(na, attr, None), getattr(nb, attr, None)
+            if va is None and vb is None:
+                continue
+            if va is None or vb is None or not vlib.close(float(va), float(vb), 1e-13):
+                res.violate('elem-order:config:nucleation-sites:' + attr, 'the default nucleation-site density ' + attr + ' depends on the ORDER in which the solutes are listed',
+                            case, vb, va)
+
+
+
+
 def corr(ctx, oracle_only=False, scale=1):
     res = Result()
     res.rule = ('A: random distinct keys (element names from a pool of 25 symbols incl. common prefixes C/CO/CR/CU, ints, doubles), 1-12 keys; '
@@ -1651,6 +1702,7 @@ def corr(ctx, oracle_only=False, scale=1):
     part_argsort(ctx, res, ctx.n(300, 6000) * scale, use_model)
     part_wrappers(ctx, res, ctx.n(150, 3000) * scale, use_model)
     part_diffusion_stub(ctx, res, ctx.n(80, 1500) * scale, use_model)
+    part_config_elements(ctx, res, ctx.n(60, 1500) * scale)
     t1 = time.time()
     part_steps(ctx, res, ctx.n(800, 25000) * scale, use_model)
     part_update(ctx, res, ctx.n(300, 8000) * scale)
